@@ -231,7 +231,11 @@ def bits_values(nbytes, tier, small=False):
             pats.add(((1 << n) - 1) ^ (1 << i))
         pats |= {int("A5" * nbytes, 16), int("5A" * nbytes, 16), int("01" * nbytes, 16), int("80" * nbytes, 16)}
         pats = sorted(pats)
-    return [[bool(p >> i & 1) for i in range(n)] for p in pats]
+    out = [[bool(p >> i & 1) for i in range(n)] for p in pats]
+    # bits are taken by truthiness: flags that are not exactly 0/1 (a masked value, a raw 0xFF BOOL byte, a count) set the bit and nothing else
+    out.append([(0, 2, 0xFF, 0, -1, 0, 3, 1 << 40)[i % 8] for i in range(n)])
+    out.append([(0x80 if i % 3 == 0 else 0) for i in range(n)])
+    return out
 
 
 # ------------------------------------------------------------------ leaves
